@@ -254,6 +254,8 @@ def err_matches(mtoks, msg):
         return f[0] in msg
     if k == 'EClassNotFound':
         return 'not found' in low and f[0] in msg
+    if k == 'EIncludeLoop':
+        return 'loop' in low and f[0] in msg
     if k == 'EUnknownNode':
         return 'unknown node' in low
     if k == 'EYamlShape':
@@ -295,7 +297,10 @@ def agree(mobs, iobs, strict_panic=True):
                 return 'invalid:model-out-of-fuel'
         return 'inventory error names no failing node: impl %r, failing nodes %s' % (msg[:200], [unhx(a[0][1:]) for a in alts])
     if mk == 'fuel':
-        return 'invalid:model-out-of-fuel'
+        # the model's include walk does not terminate: the implementation must not return either
+        return None if ik in ('abort', 'timeout') else 'invalid:model-out-of-fuel'
+    if ik in ('abort', 'timeout'):
+        return 'implementation did not return (%s), model: %s' % (describe(iobs), mobs[:100])
     if mk in ('badcase', 'badmode', 'badline') or ik == 'badcase':
         return 'invalid:badcase model=%s impl=%s' % (mobs[:80], iobs[:80])
     if mk == 'ok':
@@ -318,7 +323,7 @@ def agree(mobs, iobs, strict_panic=True):
 
 def describe(obs):
     p = obs.split(' ')
-    if p[0] in ('err', 'panic') and len(p) > 1:
+    if p[0] in ('err', 'panic', 'abort', 'timeout') and len(p) > 1:
         try:
             return '%s %r' % (p[0], unhx(p[1])[:200])
         except Exception:
@@ -328,18 +333,45 @@ def describe(obs):
 
 # ---------------------------------------------------------------- running
 def run_proc(exe, lines, env=None, timeout=3600):
-    inp = ('\n'.join(lines) + '\n').encode()
+    """Runs [exe] over [lines].  If the process dies (stack overflow, abort), the case it was
+    working on gets the observation 'abort <stderr tail>' and the rest is run in a new process."""
     e = dict(os.environ)
     if env:
         e.update(env)
-    p = subprocess.run([exe], input=inp, stdout=subprocess.PIPE, stderr=subprocess.PIPE, env=e, timeout=timeout)
     out = {}
-    for l in p.stdout.decode('utf-8', 'replace').split('\n'):
-        if '\t' in l:
-            i, o = l.split('\t', 1)
-            out[i] = o
-    if p.returncode != 0:
-        out['__exit__'] = 'exit %d %s' % (p.returncode, p.stderr.decode('utf-8', 'replace')[-300:])
+    remaining = list(lines)
+    restarts = 0
+    while remaining:
+        inp = ('\n'.join(remaining) + '\n').encode()
+        try:
+            p = subprocess.run([exe], input=inp, stdout=subprocess.PIPE, stderr=subprocess.PIPE, env=e, timeout=timeout)
+            rc, so, se = p.returncode, p.stdout, p.stderr
+        except subprocess.TimeoutExpired as te:
+            rc, so, se = -999, te.stdout or b'', b'timeout'
+        got = set()
+        for l in so.decode('utf-8', 'replace').split('\n'):
+            if '\t' in l:
+                i, o = l.split('\t', 1)
+                out[i] = o
+                got.add(i)
+        if rc == 0:
+            break
+        # find the first case without an observation: that is the one that killed the process
+        idx = None
+        for j, l in enumerate(remaining):
+            if l.split(' ', 1)[0] not in got:
+                idx = j
+                break
+        if idx is None:
+            break
+        culprit = remaining[idx].split(' ', 1)[0]
+        tail = se.decode('utf-8', 'replace')[-200:]
+        out[culprit] = ('timeout ' if rc == -999 else 'abort ') + hx(tail)
+        remaining = remaining[idx + 1:]
+        restarts += 1
+        if restarts > 2000:
+            out['__exit__'] = 'too many aborts'
+            break
     return out
 
 
